@@ -47,7 +47,7 @@ def budget(tier):
 
 
 def gen_case(rng, tier):
-    case = c03.gen_case(rng, tier)
+    case = c03.gen_case(rng, tier, custom_final=False)
     cols = case["cols"]
     restr = rng.choice(RESTRICTIONS)
     f = case["final"]
